@@ -194,6 +194,14 @@ def _arg(call, pos, name, default=None):
     return call.kwargs.get(name, default)
 
 
+def _effective_circuit(call):
+    """the circuit whose state the receiver reports: a user's simulator that redefines get_wavefunction to run
+    every circuit after a preparation of its own (rv_preparation, see _prepared_simulator) answers for both"""
+    circuit = _arg(call, 1, "circuit")
+    pre = getattr(call.args[0], "rv_preparation", None) if call.args else None
+    return circuit if pre is None else pre + circuit
+
+
 def _post_get_wavefunction(mon, call):
     name = "get_wavefunction"
     circuit = _arg(call, 1, "circuit")
@@ -236,7 +244,7 @@ def _check_distribution_dict(d, p, n):
 
 def _post_get_dist(mon, call):
     name = "get_measurement_outcome_distribution"
-    circuit = _arg(call, 1, "circuit")
+    circuit = _effective_circuit(call)
     n_samples = _arg(call, 2, "n_samples")
     if call.exc is not None:
         mon.out_of_domain(name)
@@ -284,7 +292,7 @@ def _judge_samples(samples, p, n, what):
 
 def _post_run_and_measure(mon, call):
     name = "run_and_measure"
-    circuit = _arg(call, 1, "circuit")
+    circuit = _effective_circuit(call)
     n_samples = _arg(call, 2, "n_samples")
     if call.exc is not None:
         mon.out_of_domain(name)
@@ -443,7 +451,7 @@ def _pauli_expectation(psi, terms, n):
 
 def _post_exact_expect(mon, call):
     name = "get_exact_expectation_values"
-    circuit = _arg(call, 1, "circuit")
+    circuit = _effective_circuit(call)
     op = _arg(call, 2, "operator")
     ref = _circuit_ref(circuit)
     if ref is None:
@@ -794,8 +802,23 @@ def _nontrivial(p, n):
     return not np.allclose(p, p[_rev(n)], atol=1e-6)
 
 
+def _prepared_simulator(pre_circuit, seed):
+    """a user's simulator built on the provided classes that REDEFINES the public get_wavefunction: every circuit is
+    run after a fixed preparation of its own.  All the other views (exact distribution, exact expectation, samples,
+    sampled distribution) are inherited - they have to describe the state this simulator reports"""
+    from orquestra.quantum.runners import SymbolicSimulator
+
+    class PreparedSimulator(SymbolicSimulator):
+        rv_preparation = pre_circuit
+
+        def get_wavefunction(self, circuit, initial_state=None):
+            return super().get_wavefunction(pre_circuit + circuit, initial_state)
+
+    return PreparedSimulator(seed=seed)
+
+
 def _views(ctx, spec, n, stats=False, classical=None, operators_general=False, *,
-           sim=None, circuit=None, psi=None, shared_op=None, describe=True):
+           sim=None, circuit=None, psi=None, shared_op=None, describe=True, pre_spec=None):
     """every view of one circuit against one reference state.  ``sim`` / ``shared_op``: objects that lived
     through earlier circuits of the same case (histories); ``circuit`` / ``psi``: a circuit that was not
     built from the spec alone (bound symbolic circuit) and its reference state"""
@@ -805,8 +828,9 @@ def _views(ctx, spec, n, stats=False, classical=None, operators_general=False, *
 
     rng = ctx.rng
     mon = ctx.mon
+    full_spec = spec if pre_spec is None else list(pre_spec) + list(spec)
     if psi is None:
-        psi = run_spec(spec, n)
+        psi = run_spec(full_spec, n)
     p = _probs(psi)
     terms = z_terms(rng, n)
     few, many = _sample_regimes(ctx, n)
@@ -818,7 +842,11 @@ def _views(ctx, spec, n, stats=False, classical=None, operators_general=False, *
     if circuit is None:
         circuit = build_circuit(spec, n)
     if sim is None:
-        sim = SymbolicSimulator(seed=seed)
+        if pre_spec is None:
+            sim = SymbolicSimulator(seed=seed)
+        else:
+            sim = _prepared_simulator(build_circuit(pre_spec, n), seed)
+            mon.note("user-simulator-redefining-get_wavefunction")
 
     # 1 amplitudes
     wf = sim.get_wavefunction(circuit)
@@ -838,7 +866,7 @@ def _views(ctx, spec, n, stats=False, classical=None, operators_general=False, *
             b1 = asymmetric_bits(rng, n)
             if b1 != b0:
                 init[G.index_of(b0)], init[G.index_of(b1)] = 0.6, 0.8j
-        psi_i = run_spec(spec, n, init)
+        psi_i = run_spec(full_spec, n, init)
         got_i = _numeric_amplitudes(sim.get_wavefunction(circuit, init.copy()))
         mon.note("initial-state-given")
         ctx.check("amplitudes", got_i is not None and len(got_i) == len(psi_i) and L.close(got_i, psi_i, 1e-9),
@@ -1925,6 +1953,18 @@ def run_case(ctx):
     if cls == "record":
         return _record_case(ctx)
     n = rand_width(ctx)
+    if cls in ("classical", "entangled", "two_outcome") and ctx.index % 5 == 4:
+        # the simulator is a user's: built on the provided classes, with get_wavefunction redefined to prepare an
+        # asymmetric basis state (and, sometimes, an entangling step) first; every view still has to be a view of
+        # the state that simulator reports
+        pre = [("X", None, (q,)) for q, b in enumerate(asymmetric_bits(rng, n)) if b]
+        if cls != "classical" and n >= 2 and rng.random() < 0.5:
+            a, b = rng.sample(range(n), 2)
+            pre.append(("CNOT", None, (a, b)))
+        spec = classical_spec(rng, n) if cls == "classical" else (
+            entangled_spec(rng, n) if cls == "entangled" else two_outcome_spec(rng, n))
+        return _views(ctx, spec, n, pre_spec=pre,
+                      classical=G.classical_run(pre + list(spec), n) if cls == "classical" else None)
     if cls == "classical":
         spec = classical_spec(rng, n)
         return _views(ctx, spec, n, classical=G.classical_run(spec, n))
